@@ -193,6 +193,13 @@ fn compile_expr(e: &Expr, mut scope: &mut Scope) -> Result<(Vec<Instr>, Reg)> {
                 if scope.has(name) {
                     let reg = scope.get(name).unwrap();
                     Ok((vec![], reg.clone()))
+                } else if scope.num_local == u8::MAX {
+                    // register indices are u8 counters
+                    Err(Error::from(format!(
+                        "too many local variables (max {}): {:?}",
+                        u8::MAX,
+                        name
+                    )))
                 } else {
                     Ok((
                         vec![],
